@@ -79,14 +79,14 @@ def inoA : DataReader.Inode := { fileSize := 8, blocksStart := 0, fragIdx := 429
 def inoB : DataReader.Inode := { fileSize := 8, blocksStart := 0, fragIdx := 4294967295, fragOff := 0, blocks := [16777220] }
 
 theorem d21_answer_depends_on_history :
-    (DataReader.read false dimg toyUnc (DataReader.run false false dimg toyUnc (DataReader.fresh 8 []) [.read inoA 0 8]) inoB 0 8).1
+    (DataReader.read false dimg toyUnc (DataReader.run false dimg toyUnc (DataReader.fresh 8 []) [.read inoA 0 8]) inoB 0 8).1
       = (0, [1, 2, 3, 4, 5, 6, 7, 8]) ∧
     (DataReader.read false dimg toyUnc (DataReader.fresh 8 []) inoB 0 8).1 = (0, [1, 2, 3, 4, 0, 0, 0, 0]) := by
   decide +kernel
 
 /-- with the cache keyed by the size word too, the same history is harmless -/
 theorem d21_history_repaired :
-    (DataReader.read true dimg toyUnc (DataReader.run true true dimg toyUnc (DataReader.fresh 8 []) [.read inoA 0 8]) inoB 0 8).1
+    (DataReader.read true dimg toyUnc (DataReader.run true dimg toyUnc (DataReader.fresh 8 []) [.read inoA 0 8]) inoB 0 8).1
       = (0, [1, 2, 3, 4, 0, 0, 0, 0]) := by
   decide +kernel
 
